@@ -197,6 +197,12 @@ func init() {
 // c18Partner: an ordinary browser preflight (allowed by most configuration kinds) that alternates with the sized request
 var c18Partner = preflightReq("https://partner.example.com", "PUT", []string{"x-listed-1"}, false).httpReq()
 
+// c18PresetHeaders: what an outer layer may have put into the response before the CORS middleware runs (never written to)
+var c18PresetHeaders = map[string][]string{
+	hVary: {"Accept-Encoding"}, hACAO: {"https://outer.example"}, hACAC: {"true"}, hACAM: {"OUTER"}, hACAH: {"x-outer"},
+	hACMA: {"5"}, hACEH: {"x-outer-exposed"}, hACAPN: {"true"}, "Content-Type": {"text/plain"},
+}
+
 const (
 	c18Ceiling = 10 // absolute bound on allocations per request (today: 0-2)
 	c18Slack   = 3  // tolerated difference between the smallest sizes and any other size (different paths differ by small constants)
@@ -205,7 +211,7 @@ const (
 func TestVerif_C18(t *testing.T) {
 	r := newRun(t, "C18")
 	r.Rule("configuration kinds {allow-all, discrete, `*` headers anonymous, anonymous+authorization, credentialed, PNA, PNA no-cors} x debug off/on x 70 request kinds (incl. label-count families of the Origin - plain, A-label, numeric, hyphen, underscore - at 12 fine-grained sizes below the Origin length cap), each with one attacker-sized field (Origin bytes / labels / field lines, ACRM bytes, ACRH bytes / elements / empty elements / OWS run / field lines; list elements and bytes drawn from lower-case, mixed-case, upper-case, non-token, non-ASCII, padded and long templates) x sizes 1..10^5 bytes and 1..10^4 elements (quick) or 14 sizes up to 10^6 bytes and 11 up to 10^5 elements (thorough). " +
-		"Each cell is measured twice: the sized request repeated, and the sized request alternating with an ordinary browser preflight (state carried from request to request). evaluation = one AllocsPerRun measurement (runs+1 ServeHTTP calls or pairs) with a reusable minimal writer and a no-op handler on the plain build; oracle: allocations <= " + fmt.Sprint(c18Ceiling) + " at every size and allocations at any size <= (maximum over the two smallest sizes) + " + fmt.Sprint(c18Slack) + ". non-trivial = measurement at size >= 100, distinct by construction")
+		"Each cell is measured three times: the sized request repeated, the sized request alternating with an ordinary browser preflight (state carried from request to request), and the sized request with Vary and every Access-Control-* response header pre-set by an outer layer. evaluation = one AllocsPerRun measurement (runs+1 ServeHTTP calls or pairs) with a reusable minimal writer and a no-op handler on the plain build; oracle: allocations <= " + fmt.Sprint(c18Ceiling) + " at every size and allocations at any size <= (maximum over the two smallest sizes) + " + fmt.Sprint(c18Slack) + ". non-trivial = measurement at size >= 100, distinct by construction")
 	r.Assume("the harness's writer, handler and pre-built request allocate nothing per call; GOMAXPROCS(1) during the measurement (testing.AllocsPerRun)")
 	if r.Variant != "plain" {
 		r.Assume("NOTE: measured on a non-plain build variant; counts include instrumentation")
@@ -240,7 +246,8 @@ func TestVerif_C18(t *testing.T) {
 				if strings.Contains(rk.name, "(fine sizes)") {
 					sizes = []int{1, 2, 3, 5, 8, 12, 16, 20, 24, 28, 40, 60}
 				}
-				smallMax, smallMaxI := -1.0, -1.0
+				smallMax, smallMaxI, smallMaxP := -1.0, -1.0, -1.0
+				allocsP := make([]float64, len(sizes)) // response headers pre-set by an outer layer
 				allocs := make([]float64, len(sizes))
 				allocsI := make([]float64, len(sizes)) // the sized request ALTERNATING with an ordinary browser preflight
 				for si, n := range sizes {
@@ -265,10 +272,24 @@ func TestVerif_C18(t *testing.T) {
 						h.ServeHTTP(w, req)
 					})
 					allocsI[si] = ai
-					l.evals += 2
+					// response headers pre-set by an outer layer (lesson of seeded change C18-i: a merge-instead-of-overwrite
+					// path taken only when Access-Control-Allow-Headers / -Methods are already present)
+					ap := testing.AllocsPerRun(runs, func() {
+						clear(w.h)
+						for k, v := range c18PresetHeaders {
+							w.h[k] = v
+						}
+						h.ServeHTTP(w, req)
+					})
+					allocsP[si] = ap
+					l.evals += 3
 					if n >= 100 {
-						l.nontrivN += 2
+						l.nontrivN += 3
 					}
+					if si < 2 && ap > smallMaxP {
+						smallMaxP = ap
+					}
+					dist[fmt.Sprintf("allocs_per_request_with_preset_headers_%02d", int(ap))]++
 					if si < 2 && a > smallMax {
 						smallMax = a
 					}
@@ -277,6 +298,17 @@ func TestVerif_C18(t *testing.T) {
 					}
 					dist[fmt.Sprintf("allocs_per_request_%02d", int(a))]++
 					dist[fmt.Sprintf("allocs_per_alternating_pair_%02d", int(ai))]++
+				}
+				for si, n := range sizes {
+					ap := allocsP[si]
+					if ap > 2*c18Ceiling {
+						r.Violate("allocs-above-ceiling-preset", "allocs", fmt.Sprintf("%s, debug=%v, %s with response headers pre-set by an outer layer, size %d: %.0f allocations per request (ceiling %d); by size %v: %v", cc.name, dbg, rk.name, n, ap, 2*c18Ceiling, sizes, allocsP), c18Case{cc.name, dbg, rk.name, n})
+						break
+					}
+					if ap > smallMaxP+c18Slack {
+						r.Violate("allocs-grow-with-size-preset", "allocs", fmt.Sprintf("%s, debug=%v, %s with response headers pre-set by an outer layer: %.0f allocations per request at size %d vs at most %.0f at the two smallest sizes; by size %v: %v", cc.name, dbg, rk.name, ap, n, smallMaxP, sizes, allocsP), c18Case{cc.name, dbg, rk.name, n})
+						break
+					}
 				}
 				for si, n := range sizes {
 					ai := allocsI[si]
